@@ -77,3 +77,13 @@ package cose
 //@   ensures @payload err == nil && payload == nil ==> m0.Payload != nil
 //@   ensures! err == nil && payload == nil ==> bytes(m0.Value) == MacOf(u(alg), bytes(key), u(m0.Protected), u(*m0.Payload))
 //@   callassert Encode#1: @structure ? u(unwrap(v)) == tuple("MAC0", protected, tuple(aad), *macPayload)
+
+//@ func cose.HeaderMap.Parse
+//@   nopaths
+//@   modifies v
+
+//@ func cose.SignatureAlgorithmFor
+//@   props C13 C09
+//@   sweep panic,nilmem
+//@   pure
+//@   ensures @registered err == nil ==> sigregistered(result0)
